@@ -1,3 +1,3 @@
 From Coq Require Import PArith List Bool FMapPositive Extraction ExtrOcamlBasic.
-From C06 Require Import IR Checker.
-Extraction "c06.ml" check_func mk_func mk_block compile_op.
+From C06 Require Import IR Checker AttrDef.
+Extraction "c06.ml" check_func mk_func mk_block compile_op acheck mk_cls mk_ablock.
